@@ -20,31 +20,36 @@ PROP = {'drive': ['Cff'], 'modules': ['SfntV.Props.C13'],
                        'C13_topdict_roundtrip',
                        'C13_font_roundtrip_simple',
                        'C13_width_recovered',
+                       'C13_predefined_charset',
+                       'C13_predefined_encoding',
+                       'C13_predefined_tables',
                        'C13_widths_integral',
                        'C13_width_stored_exactly',
                        'C13_facts'],
  'areas': [('cff', 2000, 15000)],
  'rule': 'distinct case lines (section encoder inputs / section bytes / font descriptions); non-trivial = at least one '
          'object, glyph or operand beyond the empty structure',
- 'partial': ['C13_dictreal_roundtrip is proved from the nine-digit integer and decimal-point position onwards (|l| <= 280); '
+ 'partial': ['C13_font_roundtrip is proved for simple fonts with the Standard, the Expert or a custom encoding '
+             '(C13_font_roundtrip_simple: readFont (writeFont f) = nfSimple f for every font in SimpleDom whose file is shorter '
+             'than 2 GiB; non-vacuity: two written files, one with a custom encoding, are read back inside Lean); for CID-keyed '
+             'fonts (several private DICTs, FDSelect, FDArray) the statement is the definition C13_font_roundtrip_full: all section '
+             'theorems it needs are proved (FDSelect, charset, private DICT, layout), the composition through readFont '
+             'for this class is evaluated only (streams cff.file.model, cff.file.read, cff.file.rt, cff.file.spec).',
+             'C13_dictreal_roundtrip is proved from the nine-digit integer and decimal-point position onwards (|l| <= 280); '
              'the float64 step of encodeFloat (Log10/Pow10/Round producing the nine digits, i.e. "to nine significant digits") '
-             'is not modelled; it is compared by correspondence on decimals of 1-9 digits.',
+             'is not modelled; it is compared by correspondence on decimals of 1-12 digits.',
              'C13_encoding_roundtrip carries the hypothesis "encodeEncoding returned bytes": inside the contiguity domain the '
              'encoder refuses (error "too many segments") when the primary codes form more than 255 ranges (256 encoded glyphs '
              'with scattered codes); the real code returns that error there, it does not write a wrong table.',
-             'C13_layout_consistent is proved for the model writeFont of (*Font).Write (byte-identical to the real Write on '
-             'every generated font, stream cff.file.model) restricted to ItalicAngle = 0, default font matrices, default '
-             'BlueScale, StdHW = StdVW = 0 (the float-valued DICT entries are then absent) and to fonts whose widths are not all '
-             'equal (otherwise nominalWidth is +Inf and int32(+Inf) is implementation-defined). topdict_roundtrip / '
-             'privatedict_roundtrip / C13_font_roundtrip (composition through the reader) are not proved: checked by the Lean '
-             'spec CFF reader on every written font (cff.file.spec) and by the real Write->Read (cff.file.rt).',
-             'width_recovered: proved that the stored default/nominal widths are integers and round-trip as DICT integers '
-             '(C13_widths_integral, C13_width_stored_exactly); the charstring number round trip of width-nominalWidth is C04/C05.',
-             'Spec readers (specIndex, specCharset, specFDSelect, specEncoding) are evaluated on the Go bytes (D streams); '
-             'round-trip theorems are stated for the models of the Go readers, not for the spec readers.',
-             'Predefined charsets (ISOAdobe/Expert/ExpertSubset, charset offsets 0-2) and predefined encodings are never '
-             'written by (*Font).Write (standard/expert encodings are detected and omitted); their tables are not regenerated.',
-             'INDEX offSize 4 (bodies >= 16 MiB) is covered by the theorem only; the streams reach offSize 1-3.'],
+             'C13_width_recovered: the link "the interpreter reads the written number as the reported value" is C04_number_partial / '
+             'C05_number_roundtrip; here the T2 encoder model of C04 (Model/T2Encode) is shown exact on 16.16 values below 32768.',
+             'Charstrings are opaque in readFont: cff.Read interprets them (property C05); the stream cff.file.read skips damaged '
+             'files whose outcome is a charstring error, reals of more than 15 digits, strings that getString would sanitise, and '
+             'compares ItalicAngle (float arithmetic in normaliseAngle) and widths only on undamaged files.',
+             'Spec readers (specIndex, specCharset, specFDSelect, specEncoding, Spec.readFont) are evaluated on the Go bytes (D '
+             'streams); round-trip theorems are stated for the models of the Go readers, not for the spec readers. The predefined '
+             'tables used by the spec reader are the regenerated ones (not an independent copy of TN5176 Appendix B/C).',
+             'type1.PrivateDict has no StemSnapH/V and FamilyBlues fields; nothing to round-trip there.'],
  'modelled_not_verified': ['strconv.ParseFloat: grammar and exact decimal value modelled (parseDec), float64 rounding '
                            'compared through the shortest decimal for inputs of at most 15 significant digits',
                            'math.Log10/Pow10/Round in encodeFloat and the float sum/division in selectWidths (exact on '
@@ -54,11 +59,14 @@ PROP = {'drive': ['Cff'], 'modules': ['SfntV.Props.C13'],
                            'predicate'],
  'assumptions': ['INDEX: fewer than 65 536 objects, body shorter than 2^32-1 bytes (exactly the inputs on which encode '
                  'does not panic, C13_index_encode_ok_iff)',
-                 'charset: names[0] = 0, all SIDs/CIDs in 0..65535, at most 65 535 glyphs (values above 0xFFFF are '
-                 'truncated silently by encodeCharset - outside the stated domain, verdict stream only)',
+                 'charset: names[0] = 0, all SIDs/CIDs in 0..65535, at most 65 535 glyphs (values outside 0..0xFFFF '
+                 'are refused by the repaired encodeCharset; the unrepaired code truncated them silently)',
                  'FDSelect: 1..65 535 glyphs, FD indices < number of private dicts <= 256',
                  'DICT integers: int32; reals: nine-digit mantissa chosen by the float computation',
-                 'widths are 16.16 fixed-point numbers']}
+                 'widths are 16.16 fixed-point numbers, |w| <= 32767',
+                 'SimpleDom (Proofs/CffFontRt.lean): one private DICT; a custom encoding vector has 256 entries, glyph ids '
+                 'inside the font and contiguous, distinct glyph names (the domain of C13_encoding_roundtrip); Latin-1 byte strings, '
+                 'first glyph .notdef with SID 0, SIDs below 65536, operands in the domains of the section theorems']}
 
 LEVEL = {'text': 'Proof (partial): INDEX write/read round trip for every list of byte strings with minimal sufficient '
          'offSize; DICT integers of all five size classes over the whole int32 range; nibble-coded reals up to the exact '
